@@ -263,6 +263,7 @@ func (cr *collRun) obs() sx {
 	st, _ := h.coll.Stats()
 	out = append(out, L("stats", st.CurDirtyOps, st.CurDirtyBytes, st.CurDirtySegments,
 		st.CurDirtyTopSegments, st.CurDirtyMidSegments, st.CurDirtyBaseSegments, st.CurCleanSegments))
+	out = append(out, L("onerr", int(atomic.LoadInt32(&h.onErrors)), int(atomic.LoadInt32(&h.injected))))
 	sn := []sx{"snaps"}
 	for _, hs := range cr.held {
 		sn = append(sn, L(hs.id, readsSx(hs.ss, cr.g.universe, 0)))
@@ -488,6 +489,7 @@ func runCollCase(w *bufio.Writer, id int, seed uint64, cfg Config, nLabels int, 
 			cr.step(L("reopen"))
 		case 7:
 			atomic.StoreInt32(&h.failNext, 1)
+			atomic.AddInt32(&h.injected, 1)
 			h.releaseActor("persister")
 			if err := h.quiesce(); err != nil {
 				return fail(err)
